@@ -3,7 +3,7 @@
 (*                                                                                                  *)
 (* Values ("cells") are flat records [k, v]:                                                        *)
 (*   "N" node (v = index in NODE)          "P" predicate (v = index in PRED)                        *)
-(*   "I" int64 literal (v = the number)    "F" float64 literal (v = 4 * the number; quarters only)  *)
+(*   "I" int64 literal (v = the number)    "F" float64 literal (v = 2^24 * the number, exact)       *)
 (*   "X" text literal (v = index in STR)   "B" bool literal (v = 0/1)                               *)
 (*   "S" plain string produced by ID/TYPE  (v = index in STR)                                       *)
 (*   "T" time anchor (v = instant rank)    "0" NULL (v = 0)                                         *)
